@@ -66,6 +66,14 @@ CLAIMED = {
         "Does not decide the letters<->numbers bijection nor convert_coordinates' parsing.",
         "Trusted: the documented (x, y, z, t) component order; ODF address grammar for quoting.",
         "DESIGN.md §4 C19"),
+    "C20": (
+        "registry-typed __str__ decoration check on formatted element content; CFG dominance queries on TOC.fill; guard extraction; constant-table comparison of the two numbering functions",
+        "Partial, structural. Decides that no element with a decorated __str__ is formatted into element content (the cause of extra line breaks in "
+        "entries), that a refill clears the old index body before appending and re-inserts the saved title first, that entries are appended once per "
+        "heading in document order behind exactly the outline-level filter read from the TOC source, and that TOC._header_numbering and the "
+        "odfdo-headers script share all numbering constants. The numbering function over all level sequences is not decided.",
+        "Trusted: XPath document order; registry typing of descendant::text:h as Header.",
+        "DESIGN.md §4 C20"),
 }
 
 NOT_APPLICABLE = {
